@@ -967,6 +967,11 @@ func TestC14(t *testing.T) {
 		{Kind: "list", Elem: &Ty{Kind: "u", N: 8}, N: 64}, {Kind: "list", Elem: &Ty{Kind: "u", N: 1}, N: 200},
 		{Kind: "bitlist", N: 300}, {Kind: "vec", Elem: &Ty{Kind: "u", N: 4}, N: 20}, {Kind: "bitvec", N: 70},
 		{Kind: "list", Elem: &Ty{Kind: "root"}, N: 16}, {Kind: "union", None: true, Fields: []*Ty{{Kind: "list", Elem: &Ty{Kind: "u", N: 2}, N: 9}}},
+		// degenerate shapes (one field, one element, one option): depth 0 subtrees
+		{Kind: "cont", Fields: []*Ty{{Kind: "list", Elem: &Ty{Kind: "u", N: 1}, N: 5}}},
+		{Kind: "list", Elem: &Ty{Kind: "cont", Fields: []*Ty{{Kind: "u", N: 8}}}, N: 6},
+		{Kind: "vec", Elem: &Ty{Kind: "cont", Fields: []*Ty{{Kind: "vec", Elem: &Ty{Kind: "u", N: 2}, N: 1}}}, N: 1},
+		{Kind: "union", Fields: []*Ty{{Kind: "cont", Fields: []*Ty{{Kind: "bitlist", N: 1}}}}},
 	}
 	for round := 0; round < rounds+len(tops); round++ {
 		var ty *Ty
